@@ -52,6 +52,11 @@ fn eco(np: usize) -> String {
     s.push_str(";\n");
     s
 }
+fn eco_long(n: usize) -> String {
+    // Eco grammar with implicit tokens and one production of n tokens (which the constructor stores as 2n symbols: the
+    // implicit rule follows every token)
+    format!("%start R\n%implicit_tokens ws\n%%\nR: {};\n", "'a' ".repeat(n))
+}
 fn many_tokens(nt: usize) -> String {
     let mut s = String::from("%start R\n%%\nR: ");
     for t in 0..nt { if t > 0 { s.push_str(" | "); } s.push_str(&format!("'t{}'", t)); }
@@ -60,14 +65,17 @@ fn many_tokens(nt: usize) -> String {
 }
 
 pub fn run_u8(kind: &str, n: usize) -> Outcome {
-    let src = match kind { "prods" => simple(n), "rules" => one_prod_rules(n), "tokens1" => tokens_one_prod(n), "eco" => eco(n), _ => many_tokens(n) };
-    let yk = if kind == "eco" { YaccKind::Eco } else { YaccKind::Original(YaccOriginalActionKind::NoAction) };
+    let src = match kind { "prods" => simple(n), "rules" => one_prod_rules(n), "tokens1" => tokens_one_prod(n), "eco" => eco(n), "eco_symbols" => eco_long(n), _ => many_tokens(n) };
+    let yk = if kind == "eco" || kind == "eco_symbols" { YaccKind::Eco } else { YaccKind::Original(YaccOriginalActionKind::NoAction) };
     // reference sizes from the u32 build
     let g32 = YaccGrammar::<u32>::new_with_storaget(yk, &src).expect("u32 grammar");
-    let exp = (usize::from(g32.rules_len()), usize::from(g32.tokens_len()), usize::from(g32.prods_len()));
+    // (the last component: the reported length of every production, summed)
+    let lens32: usize = (0..usize::from(g32.prods_len())).map(|p| usize::from(g32.prod_len(cfgrammar::PIdx(p as u32)))).sum();
+    let exp = (usize::from(g32.rules_len()), usize::from(g32.tokens_len()), usize::from(g32.prods_len()), lens32);
     let r = catch_unwind(AssertUnwindSafe(|| {
         let g = YaccGrammar::<u8>::new_with_storaget(yk, &src).expect("u8 grammar");
-        (usize::from(g.rules_len()), usize::from(g.tokens_len()), usize::from(g.prods_len()), usize::from(g.eof_token_idx()))
+        let lens: usize = (0..usize::from(g.prods_len())).map(|p| usize::from(g.prod_len(cfgrammar::PIdx(p as u8)))).sum();
+        (usize::from(g.rules_len()), usize::from(g.tokens_len()), usize::from(g.prods_len()), usize::from(g.eof_token_idx()), lens)
     }));
     let expected = format!("sizes {:?} (as with u32) or the documented 'not big enough' refusal", exp);
     match r {
@@ -76,7 +84,7 @@ pub fn run_u8(kind: &str, n: usize) -> Outcome {
             let documented = msg.contains("StorageT is not big enough");
             Outcome { fails: !documented, observed: format!("panic: {}", msg), expected }
         }
-        Ok((a, b, c, eof)) => Outcome { fails: (a, b, c) != exp || eof + 1 != exp.1, observed: format!("sizes ({},{},{}), eof idx {}", a, b, c, eof), expected },
+        Ok((a, b, c, eof, l)) => Outcome { fails: (a, b, c, l) != exp || eof + 1 != exp.1, observed: format!("sizes ({},{},{}), eof idx {}, production lengths add up to {}", a, b, c, eof, l), expected },
     }
 }
 
@@ -129,7 +137,43 @@ pub fn run_u8_table(kind: &str, n: usize) -> Outcome {
     }
 }
 
+/// "the same numbering, table contents ... in all widths that accept it", read literally: the printed core states (state
+/// numbers included) of the u8, u16 and u32 builds are the same text.
+pub fn run_numbering(src: &str) -> Outcome {
+    use lrtable::{from_yacc, Minimiser};
+    let yk = YaccKind::Original(YaccOriginalActionKind::NoAction);
+    let expected = "the same state numbering (printed core states) with u8, u16 and u32 storage".to_string();
+    let r = catch_unwind(AssertUnwindSafe(|| {
+        let g8 = YaccGrammar::<u8>::new_with_storaget(yk, src).ok()?;
+        let g16 = YaccGrammar::<u16>::new_with_storaget(yk, src).ok()?;
+        let g32 = YaccGrammar::<u32>::new_with_storaget(yk, src).ok()?;
+        let (s8, _) = from_yacc(&g8, Minimiser::Pager).ok()?;
+        let (s16, _) = from_yacc(&g16, Minimiser::Pager).ok()?;
+        let (s32, _) = from_yacc(&g32, Minimiser::Pager).ok()?;
+        Some((s8.pp_core_states(&g8), s16.pp_core_states(&g16), s32.pp_core_states(&g32), usize::from(s32.all_states_len())))
+    }));
+    match r {
+        Ok(Some((a, b, c, n))) => {
+            if a == b && b == c { Outcome { fails: false, observed: format!("{} states, numbered alike", n), expected } }
+            else { Outcome { fails: true, observed: format!("{} states in every width, but numbered differently (u8 vs u16: {}, u16 vs u32: {})", n, if a == b { "same" } else { "different" }, if b == c { "same" } else { "different" }), expected } }
+        }
+        _ => Outcome { fails: false, observed: "not built in every width".into(), expected },
+    }
+}
+
 pub fn search(tag: &str, _tier: &str) -> Option<Value> {
+    if tag.contains("numbering") {
+        for g in crate::grms::FIXED {
+            let o = run_numbering(g);
+            if o.fails { return Some(witness("c20_numbering", json!({"grammar": g}), &o)); }
+        }
+        for seed in 1..=400u64 {
+            let g = crate::grms::random_larger(seed);
+            let o = run_numbering(&g);
+            if o.fails { return Some(witness("c20_numbering", json!({"grammar": g}), &o)); }
+        }
+        return None;
+    }
     if tag.contains("state") || tag.contains("table") {
         for kind in ["states", "states_chain"] {
             for n in 200..=256usize {
@@ -140,7 +184,7 @@ pub fn search(tag: &str, _tier: &str) -> Option<Value> {
         return None;
     }
     let order: [&str; 5] = if tag.contains("token") { ["tokens1", "tokens", "rules", "prods", "eco"] } else if tag.contains("production") || tag.contains("prods") { ["prods", "eco", "rules", "tokens", "tokens1"] } else { ["rules", "prods", "tokens", "tokens1", "eco"] };
-    for kind in order {
+    for kind in order.iter().copied().chain(["eco_symbols"]) {
         for n in 120..=258usize {
             let o = run_u8(kind, n);
             if o.fails {
